@@ -5,7 +5,8 @@ Imports only `MdVerif.Model.*` / `MdVerif.Driver.*` (core Lean, no Mathlib) so t
 import MdVerif.Driver.Cursor
 import MdVerif.Driver.Traj
 import MdVerif.Driver.Topo
-open MdVerif MdVerif.Driver MdVerif.Driver.TrajP MdVerif.Driver.TopoP
+import MdVerif.Driver.Writer
+open MdVerif MdVerif.Driver MdVerif.Driver.TrajP MdVerif.Driver.TopoP MdVerif.Driver.WriterP
 
 def handle (line : String) : String :=
   let ws := (line.splitOn " ").filter (· ≠ "")
@@ -13,6 +14,7 @@ def handle (line : String) : String :=
   | "cursor" :: _ | "spec" :: _ | "load" :: _ | "loadframe" :: _ | "iter" :: _ => handleCursor ws
   | "traj" :: _ | "key" :: _ => handleTraj ws
   | "topsubset" :: _ | "topjoin" :: _ | "toprows" :: _ | "toppdb" :: _ | "topeqhash" :: _ => handleTopo ws
+  | "writer" :: _ | "save" :: _ => handleWriter ws
   | _ => "bad-op"
 
 partial def loop (h : IO.FS.Stream) (out : IO.FS.Stream) : IO Unit := do
